@@ -197,6 +197,9 @@ func (w *vsWorld) local(r *vsRep, name string, val string) (applicable bool, res
 		case "putArr":
 			_, err := r.d.PutToObject("arr", []interface{}{val, val + "b"})
 			return true, fmt.Sprint(err)
+		case "putEmptyArr":
+			_, err := r.d.PutToObject("arr", []interface{}{})
+			return true, fmt.Sprint(err)
 		case "putObj":
 			_, err := r.d.PutToObject("obj", map[string]interface{}{"a": val, "b": []interface{}{val}})
 			return true, fmt.Sprint(err)
@@ -248,7 +251,7 @@ var vsLocalSteps = map[string][]string{
 	"list":    {"ins0", "insEnd", "delFirst", "delLast", "upd0", "updLast"},
 	"map":     {"put1", "put2", "rem1", "rem2"},
 	"counter": {"inc1", "inc5"},
-	"doc":     {"putArr", "putObj", "putK", "delObj", "arrIns0", "arrInsEnd", "arrDelLast", "arrUpd0"},
+	"doc":     {"putArr", "putObj", "putK", "delObj", "arrIns0", "arrInsEnd", "arrDelLast", "arrUpd0", "putEmptyArr"},
 }
 
 func vsAlphabet(kind string) []string {
@@ -292,7 +295,7 @@ func vsSameJSON(x, y []byte) bool {
 func vsRun(kind string, alpha []string, idx []int) (applicable bool, trace []string, failure error) {
 	defer func() {
 		if r := recover(); r != nil {
-			failure = fmt.Errorf("panic: %v", r)
+			applicable, failure = true, fmt.Errorf("panic: %v", r)
 		}
 	}()
 	w := &vsWorld{kind: kind, a: vsNew(kind, 0), b: vsNew(kind, 1)}
@@ -326,12 +329,25 @@ func vsRun(kind string, alpha []string, idx []int) (applicable bool, trace []str
 			return false, trace, nil
 		}
 	}
+	variant := len(idx)
+	for _, i := range idx {
+		variant += i
+	}
+	if variant&2 != 0 {
+		// half of the histories export the OTHER replica (it has issued few or no operations of its own)
+		w.a, w.b = w.b, w.a
+	}
 	// export A, import into a fresh instance
 	meta, snap, err := w.a.dt.GetMetaAndSnapshot()
 	if err != nil {
 		return true, trace, fmt.Errorf("export failed: %v", err)
 	}
 	a2 := vsNew(kind, 7)
+	if variant&1 != 0 {
+		// half of the histories import into an instance that has already issued an operation of its own (as an
+		// instance created through the client API has): the import must replace its identifiers as well
+		w.local(a2, vsLocalSteps[kind][0], "own")
+	}
 	if err := a2.dt.SetMetaAndSnapshot(meta, snap); err != nil {
 		return true, trace, fmt.Errorf("import of the exported snapshot failed: %v (snapshot %s)", err, snap)
 	}
